@@ -12,6 +12,7 @@ STYLES = {
     "boundary": "This time aim at a boundary that the current code handles explicitly or implicitly: an empty range or string, a single element, size() == capacity(), a count of 0 or a negative count, pos == size() or pos == npos, the most negative value of a signed type, the widest or narrowest type argument, rank 0 or an extent of 0, equivalent / equal elements, arguments that alias the object itself (self-assignment, inserting a container's own element or a view into itself). The change must read like a simplification: two special cases unified, a redundant-looking check or branch dropped, an `<=` tidied to `<`, a loop started or stopped one position differently because 'the other end handles it', a clamp replaced by a precondition or the other way round.",
     "feature": "This time the change is dressed as a legitimate contribution: a small performance improvement, a generalisation to more types, a de-duplication that routes one function through another, a clean-up that replaces hand-written code by a library call (or the other way round), a 'fix' for a compiler warning (a cast, a changed integer type, an added or removed const / noexcept / constexpr / explicit, a changed default argument), or support for a corner case that accidentally changes another. The commit message you would write for it must sound reasonable. The mistake must be in semantics, not in style: a type that is too narrow or has the wrong signedness, an argument order, a changed evaluation order, a wrong sibling, an inclusive/exclusive mix-up, a forgotten state update, a condition that is right for the common instantiation and wrong for another.",
     "types": "This time the change must be right for the instantiations and call sequences that the unit tests use and wrong for another one that the property quantifies over: a different element / character / integer type (a narrower or wider one, signed instead of unsigned, a non-trivial, move-only or throwing-free user type, a type with a user-defined comparison or conversion), a different capacity or extent (0, 1, a non-power-of-two), a different value category of the argument (lvalue vs rvalue, const vs non-const), a different overload of the same name, or a different ORDER of otherwise tested operations (state left behind by one member function that a later one relies on). Typical shapes: a `static_cast` to a fixed type where the template parameter was meant, `sizeof` / `numeric_limits` of the wrong type, a `memcpy`/bitwise shortcut applied without the trait that guards it, a `move` where a copy is needed because the source is used again, a member not updated on one branch, a const overload that differs from the non-const one, a helper instantiated with swapped template arguments.",
+    "sequence": "This time the change must only show through the INTERPLAY of two operations or through a particular history: one member function leaves the object in a state (a stale cached value, a terminator / sentinel / padding element not rewritten, a size or index field updated before or after the data it describes, an element left moved-from, a flag not reset, capacity bookkeeping off by one only when full or only when empty) that is harmless for the calls the unit tests make next and wrong for another later call the property quantifies over; or a function that is correct when called first and wrong when called after a specific other one (after clear(), after a failed / rejected insertion, after a move-from, after a swap with an empty object, after a resize down followed by a resize up, after an erase of the last element, after an assignment from a shorter / longer source, after an exception-free early return). Also eligible: the same operation applied twice (idempotence lost), an operation and its inverse (push/pop, insert/erase, set/reset, ++/--) no longer cancelling at a boundary, const and non-const access paths diverging after a mutation. The single call that the tests make must still give the right answer.",
 }
 
 
